@@ -142,7 +142,10 @@ theorem i128_shifted_div_mod_floor_eq (prof : Profile) (x : Int) (p : Nat) (y : 
         · simp only [hr, decide_false, Bool.false_eq_true, if_false, bind_assoc', bind_ok', pure_eq']
     · simp only [hx, decide_false, Bool.false_eq_true, if_false]
       by_cases hy : y < 0
-      · simp only [hy, decide_true, if_true, bind_assoc', bind_ok', pure_eq']
+      · simp only [hy, decide_true, if_true]
+        by_cases hr : IntTy.i128.cast ((r : Nat) : Int) = 0
+        · simp only [hr, decide_true, if_true, bind_assoc', bind_ok', pure_eq']
+        · simp only [hr, decide_false, Bool.false_eq_true, if_false, bind_assoc', bind_ok', pure_eq']
       · simp only [hy, decide_false, Bool.false_eq_true, if_false, bind_ok', pure_eq']
 
 /-- one step of the binary search, as generated, equals `msbStep` (the `u8` addition cannot overflow) -/
